@@ -85,6 +85,8 @@ func fixedScenarios() []*Scenario {
 		// signal inside a programmatic reload / inside a SIGHUP reload
 		{Metrics: true, NReload: 2, Shuts: []int{bOK}, Stops: []int{bOK}, Reqs: []Rel{{Kind: "D"}}, Rounds: []Round{{Trig: 0, CancelAt: 0}}},
 		{NReload: 2, Shuts: []int{bOK}, Stops: []int{bOK}, Rounds: []Round{{Trig: 1, CancelAt: 1}}},
+		// StartMTLS with an invalid configuration (no client CAs): a failed start-up — the startup logs must come out
+		{Proto: pMTLS, Listen: lCfg, Readies: []int{bOK}, Shuts: []int{bOK}, Stops: []int{bOK}},
 		// bad address
 		{Tracing: true, Listen: lBad, Readies: []int{bOK}, Shuts: []int{bOK}, Stops: []int{bOK}},
 		// … with more hooks to come after the one the signal arrives in: the round still runs all its hooks
